@@ -1,17 +1,31 @@
 """C09 — interpolatable compilation keeps compatible masters compatible.
 
-State = (entry point, number of masters, UFO library) + a history of *structure ops* applied to a
-family of point-compatible masters.  Every family always contains the complete K x K trie of cubic
-shape pairs (glyph ``p<i>_<j>`` draws cubic K[i] in master 0 and K[j] in master 1; master 2 is K[i]
-scaled by 5/4, master 3 is K[j] moved by per-point dyadic offsets, the sparse layer is the midpoint),
-so that cu2qu run on one master alone would need a different number of quadratic segments than on
-another.  The structure ops add composite / nested / mixed glyphs over a few representative bases,
-give one master a different 2x2, add a sparse layer source, switch on flattenComponents /
-skipExportGlyphs, or list a custom filter in one master's lib.  The real interpolatable compile
-function is run in every state and the per-glyph structure of every returned master is compared.
+State = (entry point, number of masters, flattenComponents, UFO library) + a history of *structure
+ops* applied to a family of point-compatible masters.  Every family always contains the complete
+K x K trie of cubic shape pairs (glyph ``p<i>_<j>`` draws cubic K[i] in master 0 and K[j] in master 1;
+master 2 is K[i] scaled by 5/4, master 3 is K[j] moved by per-point dyadic offsets, the sparse layer
+is the midpoint), so that cu2qu run on one master alone would need a different number of quadratic
+segments than on another, plus quadratic / mixed-curve / two-contour glyphs.  The structure ops
+
+  comp        composites over five representative bases (identity, scaled, flipped 2x2, two bases)
+  d2x2:<m>    composites whose 2x2 differs in exactly one entry in master m (0, 1 or the sparse layer)
+  dflip       composites whose 2x2 changes the sign of its determinant in master 0 only
+  nest        composites of every composite / mixed glyph present so far (twice: depth 3)
+  mixed       glyphs with a contour and a component, in every master
+  sparse:<v>  a sparse layer source holding only bases / only composites (bases and some
+              intermediates missing) / a mix; "comps1st" lists the sparse source first
+  skip:<v>    skipExportGlyphs naming bases used as components / composites used by nested glyphs
+  filt:<f>:<m> decomposeTransformedComponents or flattenComponents in the lib of master m only, or
+              of all masters
+
+are explored breadth-first to depth 2 (quick) / 3 (thorough).  The real interpolatable compile
+function runs in every state and the per-glyph structure of every returned master is compared:
+contour count, per-contour point count and on/off/cubic flags in order, component base list and
+2x2 (glyf); charstring operator sequence (CFF).
 
 The sources are point-compatible by construction (one abstract glyph description is concretised
-per master; only coordinates, component offsets and - on request - a component's 2x2 differ).
+per master; only coordinates, component offsets and - on request - a component's 2x2 differ); this
+is checked by selftest/test_c09_family.py.
 """
 
 from __future__ import annotations
@@ -159,10 +173,11 @@ def concrete_transform(tkey, diff, mid):
 
 # ---- structure: history -> abstract family ----------------------------------------------------
 GLYPH_OPS = ["comp", "d2x2:0", "d2x2:1", "d2x2:S", "nest", "mixed", "dflip"]
-SPARSE_OPS = ["sparse:bases", "sparse:comps", "sparse:mix"]
+# "comps1st": same layer as "comps" but the sparse source is listed before the default master
+SPARSE_OPS = ["sparse:bases", "sparse:comps", "sparse:mix", "sparse:comps1st"]
 SKIP_OPS = ["skip:base", "skip:comp"]
 FILTER_OPS = ["filt:dtc:0", "filt:dtc:1", "filt:dtc:all", "filt:flat:0"]
-ALL_OPS = GLYPH_OPS + SPARSE_OPS + ["flatten"] + SKIP_OPS + FILTER_OPS
+ALL_OPS = GLYPH_OPS + SPARSE_OPS + SKIP_OPS + FILTER_OPS
 
 
 def base_family():
@@ -184,18 +199,26 @@ def _add(g, name, role, rep, shape, comps):
         g[name] = {"role": role, "rep": rep, "shape": shape, "comps": comps}
 
 
+def _add_composites(g):
+    for r, b in enumerate(REP):
+        _add(g, "c." + b, "c", r, None, [(b, "id", None)])
+        _add(g, "s." + b, "s", r, None, [(b, "half" if r % 2 == 0 else "flipx", None)])
+        _add(g, "cc." + b, "cc", r, None, [(b, "id", None), (REP[(r + 1) % len(REP)], "rot", None)])
+        # two bases that no other composite uses (in a sparse layer both need a placeholder)
+        _add(g, "cd." + b, "cd", r, None, [("p%d_%d" % (r, r + 1), "id", None),
+                                          ("p%d_%d" % (r + 1, r), "rot", None)])
+
+
 def interpret(h):
     """History -> structure dict {setup, glyphs (abstract), sparse, flatten, skip, filt}."""
     setup = h[0]
     g = base_family()
-    st = {"setup": setup, "glyphs": g, "sparse": None, "flatten": False, "skip": [], "filt": None,
+    st = {"setup": setup, "glyphs": g, "sparse": None, "flatten": bool(setup.get("flatten")), "skip": [],
+          "filt": None,
           "ops": list(h[1:])}
     for op in h[1:]:
         if op == "comp":
-            for r, b in enumerate(REP):
-                _add(g, "c." + b, "c", r, None, [(b, "id", None)])
-                _add(g, "s." + b, "s", r, None, [(b, "half" if r % 2 == 0 else "flipx", None)])
-                _add(g, "cc." + b, "cc", r, None, [(b, "id", None), (REP[(r + 1) % len(REP)], "rot", None)])
+            _add_composites(g)
         elif op.startswith("d2x2:"):
             m = op[5:]
             m = "S" if m == "S" else int(m)
@@ -209,6 +232,7 @@ def interpret(h):
             for r, b in enumerate(REP):
                 _add(g, "f0." + b, "f", r, None, [(b, "id", (3, 0, -1))])
         elif op == "nest":
+            _add_composites(g)  # nesting needs something to nest
             for n, d in list(g.items()):
                 if d["comps"] and d["role"] != "n2":
                     role = "n2" if d["role"] in ("n", "nm") else ("nm" if d["shape"] else "n")
@@ -222,8 +246,6 @@ def interpret(h):
                 _add(g, "mc." + n, "mc", g[n]["rep"], ("smallbox",), [(n, "shift", None)])
         elif op.startswith("sparse:"):
             st["sparse"] = op[7:]
-        elif op == "flatten":
-            st["flatten"] = True
         elif op.startswith("skip:"):
             st["skip"].append(op[5:])
         elif op.startswith("filt:"):
@@ -246,7 +268,7 @@ def skip_list(st):
 
 def sparse_names(st):
     """Which glyphs the sparse layer contains."""
-    v = st["sparse"]
+    v = st["sparse"].replace("1st", "")
     g = st["glyphs"]
     out = []
     for n, d in g.items():
@@ -261,6 +283,8 @@ def sparse_names(st):
             take = {"bases": d["rep"] % 2 == 0, "comps": False, "mix": d["rep"] in (0, 3)}[v]
         else:  # composite / mixed glyph
             take = {"bases": False, "comps": d["rep"] % 2 == 0, "mix": d["rep"] in (1, 3, 4)}[v]
+            if v == "comps" and d["rep"] == 2 and d["role"] in ("c", "m"):
+                take = False  # their nested users stay: a reference to an intermediate that is missing
         if take:
             out.append(n)
     return out
@@ -368,9 +392,10 @@ def compile_family(st):
         fonts = [B.build_font(s, module) for s in specs]
         ufos, layers = list(fonts), [None] * n
         if st["sparse"]:
-            ufos.insert(1, fonts[0])
-            layers.insert(1, "S")
-            mids.insert(1, "S")
+            pos = 0 if st["sparse"].endswith("1st") else 1
+            ufos.insert(pos, fonts[0])
+            layers.insert(pos, "S")
+            mids.insert(pos, "S")
             opts["layerNames"] = layers
         if skip:
             opts["skipExportGlyphs"] = skip
@@ -389,9 +414,10 @@ def compile_family(st):
     sources = [{"spec": specs[m], "location": locs[m], "name": "m%d" % m,
                 **({"share": "m0"} if m == 0 else {})} for m in range(n)]
     if st["sparse"]:
-        sources.insert(1, {"spec": specs[0], "share": "m0", "layerName": "S", "location": sloc,
-                           "name": "sparse"})
-        mids.insert(1, "S")
+        pos = 0 if st["sparse"].endswith("1st") else 1
+        sources.insert(pos, {"spec": specs[0], "share": "m0", "layerName": "S", "location": sloc,
+                             "name": "sparse"})
+        mids.insert(pos, "S")
     dslib = {"public.skipExportGlyphs": skip} if skip else {}
     ds = B.build_designspace(axes, sources, lib=dslib, module=module)
     fn = ufo2ft.compileInterpolatableTTFsFromDS if entry == "ttfs_ds" else ufo2ft.compileInterpolatableOTFsFromDS
@@ -411,7 +437,7 @@ def globals_of(st):
 
 class C09(Property):
     id = "C09"
-    rule = ("state = (entry point, number of masters, UFO library, history of structure ops over a "
+    rule = ("state = (entry point, number of masters, flattenComponents, UFO library, history of structure ops over a "
             "family of point-compatible masters that always contains the full 12x12 trie of cubic shape "
             "pairs); case-state = one glyph of one family compared across all returned masters; "
             "non-trivial = the glyph's masters would individually need different numbers of quadratic "
@@ -431,18 +457,19 @@ class C09(Property):
 
     def bounds(self, tier):
         if tier == "quick":
-            return {"depth": 3, "ops_depth": 2, "masters": [2, 3], "defcon_depth": -1,
+            return {"depth": 3, "ops_depth": 2, "masters": [2, 3], "flatten_masters": [3], "defcon_depth": -1,
                     "entries": ["ttfs", "ttfs_ds", "otfs_ds"]}
-        return {"depth": 4, "ops_depth": 3, "masters": [2, 3, 4], "defcon_depth": 1,
+        return {"depth": 4, "ops_depth": 3, "masters": [2, 3, 4], "flatten_masters": [2, 3, 4], "defcon_depth": 1,
                 "entries": ["ttfs", "ttfs_ds", "otfs_ds"]}
 
     def initial(self, b):
         out = []
         for e in b["entries"]:
             for n in b["masters"]:
-                out.append([{"entry": e, "n": n, "module": "ufoLib2"}])
-                if b["defcon_depth"] >= 0:
-                    out.append([{"entry": e, "n": n, "module": "defcon"}])
+                for fl in ((False, True) if e != "otfs_ds" and n in b["flatten_masters"] else (False,)):
+                    out.append([{"entry": e, "n": n, "module": "ufoLib2", "flatten": fl}])
+                    if b["defcon_depth"] >= 0:
+                        out.append([{"entry": e, "n": n, "module": "defcon", "flatten": fl}])
         return out
 
     def ops(self, h, b):
@@ -454,17 +481,14 @@ class C09(Property):
         out = []
         if "dflip" in done:
             return []  # terminal: see KF-C09-flip-in-one-master
-        have_comp = any(o in ("comp", "mixed") or o.startswith("d2x2") for o in done)
         for op in ALL_OPS:
             if op in done and op != "nest":
                 continue
-            if op == "nest" and (not have_comp or done.count("nest") >= 2):
+            if op == "nest" and done.count("nest") >= 2:
                 continue
             if op.startswith("sparse:") and any(o.startswith("sparse:") for o in done):
                 continue
             if op == "d2x2:S" and not any(o.startswith("sparse:") for o in done):
-                continue
-            if op == "flatten" and setup["entry"] == "otfs_ds":
                 continue
             if op.startswith("filt:") and any(o.startswith("filt:") for o in done):
                 continue
@@ -644,8 +668,11 @@ class C09(Property):
         npairs = sum(1 for i in range(NK) for j in range(NK) if cnt[(i, 0)] != cnt[(j, 1)])
         if npairs < 100:
             out.append(violation("vacuous-palette", {"pairs_with_different_individual_counts": npairs}))
-        if not c.get("glyphs_individual_counts_differ"):
-            out.append(violation("vacuous-run", {"what": "no glyph with differing individual segment counts"}))
+        for key in ("glyphs_individual_counts_differ", "joint_split_exceeds_min_individual",
+                    "glyphs_2x2_differs_decomposed", "composites_kept", "sparse_placeholders",
+                    "sparse_interpolated_composites", "glyphs_in_sparse_compared"):
+            if not c.get(key):
+                out.append(violation("vacuous-run", {"counter": key}))
         return out
 
 
